@@ -197,7 +197,7 @@ class Engine(Interp, ExecMixin, EvalMixin, CallMixin, BuiltinMixin):
             except (Infeasible, PathEnd):
                 pass
             except OutsideSubset as e:
-                msg = str(e)
+                msg = str(e) + " [path: " + "/".join(st.trail[-14:]) + "]"
                 if msg not in rep["undecided"]:
                     rep["undecided"].append(msg)
             except ContractError as e:
@@ -230,7 +230,7 @@ class Engine(Interp, ExecMixin, EvalMixin, CallMixin, BuiltinMixin):
         is_ghost = c.kind in ("lemma", "theorem")
         fr0 = self.contract_frame(c, env, c.target)
         if is_ghost:
-            fr0.module = None
+            fr0.module = c.options.get("module")
         st.frames.append(fr0)
         # class tags of ref-typed parameters
         for p, ann in c.params:
@@ -268,7 +268,14 @@ class Engine(Interp, ExecMixin, EvalMixin, CallMixin, BuiltinMixin):
             if is_ghost:
                 f = Func(node, "lemmas." + os.path.basename(c.file)[:-3], {}, qual)
                 body = node.body[c.options.get("body_start", 0):]
-                fr = Frame(dict(env), None, qual)
+                fr = Frame(dict(env), c.options.get("module"), qual)
+                for nm, tgt in (c.options.get("imports") or {}).items():
+                    m_, _, a_ = tgt.partition(":")
+                    st.frames.append(Frame({}, m_, "<import>"))
+                    try:
+                        fr.env[nm] = self.global_lookup(st, m_, a_)
+                    finally:
+                        st.frames.pop()
                 fr.contract = c
                 fr.loop_map = loop_ordinals(node)
                 fr.spec_module = None
@@ -390,6 +397,7 @@ def load_all(contract_dir=None, spec_dir=None):
     contracts: Dict[str, Contract] = {}
     classes: Dict[str, dict] = {}
     inline_ok = set()
+    opaque_ok = set()
     for d in (contract_dir, os.path.join(front.VERIF, "lemmas"), os.path.join(front.VERIF, "theorems")):
         for path in sorted(glob.glob(os.path.join(d, "*.py"))):
             cs, tables = front.parse_contract_file(path)
@@ -401,6 +409,8 @@ def load_all(contract_dir=None, spec_dir=None):
                 classes[name] = m
             for k in tables.get("INLINE") or []:
                 inline_ok.add(k)
+            for k in tables.get("OPAQUE") or []:
+                opaque_ok.add(k)
     specs: Dict[str, SpecFn] = {}
     for path in sorted(glob.glob(os.path.join(spec_dir, "*.py"))):
         modname = "spec." + os.path.basename(path)[:-3]
@@ -416,6 +426,7 @@ def load_all(contract_dir=None, spec_dir=None):
                 specs[n.name] = SpecFn(n.name, n, modname, "pure" in decs)
     eng = Engine(contracts, classes, specs)
     eng.inline_ok = inline_ok
+    eng.opaque_ok = opaque_ok
     eng.auto_lemma_index = {}
     for c in contracts.values():
         if c.kind in ("lemma", "assumed") and c.options.get("auto_for"):
